@@ -473,12 +473,6 @@ func mapperSkeleton(p *packages.Package, fd *ast.FuncDecl) []string {
 			if s.Type != nil {
 				set["assert:"+abstractType(info.TypeOf(s.Type))] = true
 			}
-		case *ast.CaseClause:
-			for _, e := range s.List {
-				if tv, ok := info.Types[e]; ok && tv.Value != nil {
-					set["case:"+tv.Value.ExactString()] = true
-				}
-			}
 		case *ast.ReturnStmt:
 			if len(s.Results) == 2 {
 				if tv, ok := info.Types[s.Results[1]]; ok && tv.Value != nil && tv.Value.String() == "false" {
